@@ -159,7 +159,7 @@ void scale_case(vt::Rng& rng, int64_t icase)
                 col.push_back(std::isnan(v) ? Missing : static_cast<int64_t>(v));
                 if (!std::isnan(v))
                 {
-                    inverts = inverts && back(i, c) == v;
+                    inverts = inverts && std::fabs(back(i, c) - v) <= 1e-12 * std::max(1.0, std::fabs(v)); // up to rounding
                     given_scaled.push_back(scaled(i, c));
                 }
             }
@@ -181,9 +181,11 @@ void scale_case(vt::Rng& rng, int64_t icase)
                 var /= static_cast<double>(given_scaled.size() - 1);
                 if (mx > mn)
                 {
-                    rmdOK = rmdOK && (mode != scaling_type::mean || (mean == 0.0 && mx - mn == 1.0));
-                    rmdOK = rmdOK && (mode != scaling_type::minmax || (mn == 0.0 && mx == 1.0));
-                    rmdOK = rmdOK && (mode != scaling_type::standard || (mean == 0.0 && var == 1.0));
+                    // (up to rounding: how the statistics are accumulated is the implementation's choice)
+                    const auto near = [](const double a, const double b) { return std::fabs(a - b) <= 1e-12; };
+                    rmdOK = rmdOK && (mode != scaling_type::mean || (near(mean, 0.0) && near(mx - mn, 1.0)));
+                    rmdOK = rmdOK && (mode != scaling_type::minmax || (near(mn, 0.0) && near(mx, 1.0)));
+                    rmdOK = rmdOK && (mode != scaling_type::standard || (near(mean, 0.0) && near(var, 1.0)));
                 }
             }
             const auto sep = c > 0 ? "," : "";
@@ -287,6 +289,247 @@ void scale_case(vt::Rng& rng, int64_t icase)
         }
     }
 }
+
+// ---- float oracle (environment predicates): matrices of 1..300 rows x 1..20 continuous columns with magnitudes 1e-6..1e6, arbitrary
+// missing patterns, categorical columns in between, multi-output linear models; statistics recomputed in long double by the driver
+void float_case(vt::Rng& rng, int64_t icase)
+{
+    const auto n     = rng.coin(1, 6) ? rng.pick(std::vector<int64_t>{1, 2, 300}) : rng.range(1, 300);
+    const auto ncont = rng.range(1, 20), ncat = rng.range(0, 3), tsize = rng.range(1, 5);
+    std::vector<vt::column_t> columns;
+    std::vector<int>          kind; // per flattened column: 0 continuous, 1 categorical (one-hot)
+    for (int64_t c = 0; c < ncont + ncat; ++c)
+    {
+        if (c < ncont)
+        {
+            auto       col = vt::make_scalar_column("x" + std::to_string(c), feature_type::float64, n);
+            const auto m   = (rng.coin() ? -1.0 : 1.0) * (rng.coin(1, 5) ? 0.0 : std::pow(10.0, rng.uniform(-6.0, 6.0)));
+            // spread: down to eight orders of magnitude below the mean (near-constant columns)
+            const auto s   = std::max(std::fabs(m) * 1e-8, std::pow(10.0, rng.uniform(-6.0, 6.0)));
+            const auto density = rng.pick(std::vector<int>{0, 0, 1, 3, 7});
+            for (int64_t i = 0; i < n; ++i)
+            {
+                col.flat[static_cast<size_t>(i)]    = m + s * rng.uniform(-1.0, 1.0);
+                col.missing[static_cast<size_t>(i)] = static_cast<char>(rng.range(0, 9) < density);
+            }
+            columns.push_back(col);
+        }
+        else
+        {
+            auto col = vt::make_sclass_column("c" + std::to_string(c), 3, n);
+            for (int64_t i = 0; i < n; ++i)
+            {
+                col.flat[static_cast<size_t>(i)]    = static_cast<double>(rng.range(0, 2));
+                col.missing[static_cast<size_t>(i)] = static_cast<char>(rng.coin(1, 6));
+            }
+            columns.push_back(col);
+        }
+    }
+    // interleave categorical and continuous columns
+    for (size_t i = columns.size(); i > 1; --i)
+    {
+        std::swap(columns[i - 1], columns[static_cast<size_t>(rng.range(0, static_cast<int64_t>(i) - 1))]);
+    }
+    {
+        auto col = vt::make_struct_column("y", feature_type::float64, make_dims(tsize, 1, 1), n);
+        const auto m = (rng.coin() ? -1.0 : 1.0) * std::pow(10.0, rng.uniform(-3.0, 3.0));
+        for (auto& v : col.flat)
+        {
+            v = m * (1.0 + rng.uniform(-1.0, 1.0));
+        }
+        if (tsize == 1)
+        {
+            col = vt::make_scalar_column("y", feature_type::float64, n);
+            for (auto& v : col.flat)
+            {
+                v = m * (1.0 + rng.uniform(-1.0, 1.0));
+            }
+        }
+        columns.push_back(col);
+    }
+    vt::table_datasource_t source(n, columns, columns.size() - 1U);
+    source.load();
+    dataset_t dataset(source, static_cast<size_t>(rng.range(1, 8)));
+    dataset.add<sclass_identity_generator_t>();
+    dataset.add<scalar_identity_generator_t>();
+    dataset.add<struct_identity_generator_t>();
+
+    const auto samples = arange(0, n);
+    const auto stats   = scalar_stats_t::make_flatten_stats(dataset, samples, rng.pick(std::vector<tensor_size_t>{1, 3, 7, 64, 1000}));
+    const auto tstats  = scalar_stats_t::make_targets_stats(dataset, samples, rng.pick(std::vector<tensor_size_t>{1, 5, 1000}));
+    tensor2d_t buffer;
+    const auto raw   = tensor2d_t{dataset.flatten(samples, buffer)};
+    const auto isize = raw.size<1>();
+    // which flattened columns are categorical: the dataset says so through its column -> feature map
+    std::vector<bool> categorical(static_cast<size_t>(isize), false);
+    for (tensor_size_t c = 0; c < isize; ++c)
+    {
+        const auto f = dataset.column2feature(c);
+        categorical[static_cast<size_t>(c)] = dataset.feature(f).is_sclass() || dataset.feature(f).is_mclass();
+    }
+    // the driver's own statistics
+    bool statsOK = true;
+    std::vector<long double> mean(static_cast<size_t>(isize), 0), sdev(static_cast<size_t>(isize), 0), lo(static_cast<size_t>(isize), 0), hi(static_cast<size_t>(isize), 0);
+    std::vector<int64_t>     cnt(static_cast<size_t>(isize), 0);
+    for (tensor_size_t c = 0; c < isize; ++c)
+    {
+        const auto u = static_cast<size_t>(c);
+        long double sum = 0;
+        for (tensor_size_t i = 0; i < n; ++i)
+        {
+            if (std::isfinite(raw(i, c)))
+            {
+                sum += raw(i, c);
+                lo[u] = cnt[u] == 0 ? raw(i, c) : std::min<long double>(lo[u], raw(i, c));
+                hi[u] = cnt[u] == 0 ? raw(i, c) : std::max<long double>(hi[u], raw(i, c));
+                ++cnt[u];
+            }
+        }
+        mean[u] = cnt[u] > 0 ? sum / cnt[u] : 0;
+        long double ss = 0;
+        for (tensor_size_t i = 0; i < n; ++i)
+        {
+            if (std::isfinite(raw(i, c)))
+            {
+                ss += (raw(i, c) - mean[u]) * (raw(i, c) - mean[u]);
+            }
+        }
+        sdev[u] = cnt[u] > 1 ? std::sqrt(ss / (cnt[u] - 1)) : 0;
+        if (!categorical[u] && cnt[u] > 1)
+        {
+            const auto mag = std::max<long double>({std::fabs(lo[u]), std::fabs(hi[u]), 1e-300L});
+            if (std::getenv("VERIF_DEBUG") != nullptr)
+            {
+                std::fprintf(stderr, "col %d cat=%d cnt=%lld/%lld min=%g/%Lg max=%g/%Lg mean=%.17g/%.17Lg sd=%.17g/%.17Lg\n", (int)c, (int)categorical[u], (long long)stats.m_samples(c),
+                             (long long)cnt[u], stats.m_min(c), lo[u], stats.m_max(c), hi[u], stats.m_mean(c), mean[u], stats.m_stdev(c), sdev[u]);
+            }
+            statsOK = statsOK && stats.m_samples(c) == cnt[u] && stats.m_min(c) == static_cast<double>(lo[u]) && stats.m_max(c) == static_cast<double>(hi[u]) &&
+                      std::fabs(stats.m_mean(c) - mean[u]) <= 1e-12L * mag && std::fabs(stats.m_stdev(c) - sdev[u]) <= 1e-6L * std::max(sdev[u], 1e-12L * mag);
+        }
+    }
+    const auto modes = std::vector<scaling_type>{scaling_type::none, scaling_type::mean, scaling_type::minmax, scaling_type::standard};
+    bool roundtripOK = true, advertisedOK = true, categoricalOK = true, missingOK = true;
+    for (const auto mode : modes)
+    {
+        auto scaled = raw;
+        stats.scale(mode, scaled.tensor());
+        auto back = scaled;
+        stats.upscale(mode, back.tensor());
+        for (tensor_size_t c = 0; c < isize; ++c)
+        {
+            const auto  u   = static_cast<size_t>(c);
+            const auto  mag = static_cast<double>(std::max<long double>({std::fabs(lo[u]), std::fabs(hi[u]), 1e-300L}));
+            long double ssum = 0, ssq = 0, smin = 0, smax = 0;
+            int64_t     k = 0;
+            for (tensor_size_t i = 0; i < n; ++i)
+            {
+                if (!std::isfinite(raw(i, c)))
+                {
+                    missingOK = missingOK && scaled(i, c) == 0.0; // missing values become zero
+                    continue;
+                }
+                if (categorical[u])
+                {
+                    categoricalOK = categoricalOK && scaled(i, c) == raw(i, c);
+                    continue;
+                }
+                roundtripOK = roundtripOK && std::fabs(back(i, c) - raw(i, c)) <= 1e-9 * mag;
+                ssum += scaled(i, c);
+                smin = k == 0 ? scaled(i, c) : std::min<long double>(smin, scaled(i, c));
+                smax = k == 0 ? scaled(i, c) : std::max<long double>(smax, scaled(i, c));
+                ++k;
+            }
+            if (categorical[u] || k < 2 || !(hi[u] - lo[u] >= 1e-7L))
+            {
+                // degenerate columns are left as they are (decided exactly on the lattice); the library treats a range or deviation below
+                // an ABSOLUTE epsilon (~1.5e-8) as degenerate, so columns of magnitude 1e-6 with a tiny spread are not required to
+                // reach the advertised range either
+                continue;
+            }
+            const auto smean = ssum / k;
+            for (tensor_size_t i = 0; i < n; ++i)
+            {
+                if (std::isfinite(raw(i, c)))
+                {
+                    ssq += (scaled(i, c) - smean) * (scaled(i, c) - smean);
+                }
+            }
+            const auto sdev1 = std::sqrt(ssq / (k - 1));
+            if (std::getenv("VERIF_DEBUG") != nullptr)
+            {
+                std::fprintf(stderr, "mode %d col %d k=%lld lo=%.17Lg hi=%.17Lg smin=%.17Lg smax=%.17Lg smean=%.17Lg sdev=%.17Lg\n", (int)mode, (int)c, (long long)k, lo[u], hi[u], smin, smax, smean, sdev1);
+            }
+            // tolerances: rounding of the statistics themselves is amplified by |value| / spread for near-constant columns
+            const auto big  = std::max<long double>(std::fabs(lo[u]), std::fabs(hi[u]));
+            const auto tolr = 1e-9L + 64 * 2.3e-16L * big / (hi[u] - lo[u]);
+            const auto tols = 1e-6L + 64 * 2.3e-16L * big / std::max<long double>(sdev[u], 1e-300L);
+            if (mode == scaling_type::minmax)
+            {
+                advertisedOK = advertisedOK && std::fabs(smin) <= tolr && std::fabs(smax - 1) <= tolr;
+            }
+            else if (mode == scaling_type::mean)
+            {
+                advertisedOK = advertisedOK && std::fabs(smean) <= tolr && smax - smin <= 1 + tolr;
+            }
+            else if (mode == scaling_type::standard)
+            {
+                advertisedOK = advertisedOK && std::fabs(smean) <= tols && std::fabs(sdev1 - 1) <= tols;
+            }
+        }
+    }
+    // affine up-scaling of a multi-output linear model
+    bool affineOK = true;
+    {
+        const auto min_ = rng.pick(modes), mout = rng.pick(modes);
+        tensor2d_t W(tsize, isize);
+        tensor1d_t b(tsize);
+        for (tensor_size_t i = 0; i < W.size(); ++i)
+        {
+            W(i) = rng.uniform(-3.0, 3.0);
+        }
+        for (tensor_size_t i = 0; i < tsize; ++i)
+        {
+            b(i) = rng.uniform(-3.0, 3.0);
+        }
+        auto Wu = W;
+        auto bu = b;
+        ::nano::upscale(stats, min_, tstats, mout, Wu.tensor(), bu.tensor());
+        for (tensor_size_t i = 0; i < n; ++i)
+        {
+            bool finite = true;
+            for (tensor_size_t c = 0; c < isize; ++c)
+            {
+                finite = finite && std::isfinite(raw(i, c));
+            }
+            if (!finite)
+            {
+                continue;
+            }
+            tensor2d_t x(1, isize);
+            for (tensor_size_t c = 0; c < isize; ++c)
+            {
+                x(0, c) = raw(i, c);
+            }
+            auto xs = x;
+            stats.scale(min_, xs.tensor());
+            tensor4d_t ys(make_dims(1, tsize, 1, 1)), yr(make_dims(1, tsize, 1, 1));
+            linear::predict(xs, W, b, ys.tensor());
+            tstats.upscale(mout, ys.tensor());
+            linear::predict(x, Wu, bu, yr.tensor());
+            for (tensor_size_t t = 0; t < tsize; ++t)
+            {
+                double magnitude = std::fabs(bu(t)) + std::fabs(ys(t)) + 1e-300;
+                for (tensor_size_t c = 0; c < isize; ++c)
+                {
+                    magnitude += std::fabs(Wu(t, c) * x(0, c));
+                }
+                affineOK = affineOK && std::fabs(ys(t) - yr(t)) <= 1e-9 * magnitude;
+            }
+        }
+    }
+    vt::put(vt::J("Float").i("case", icase).i("rows", n).i("columns", isize).i("outputs", tsize).b("statsOK", statsOK).b("roundtripOK", roundtripOK).b(
+        "advertisedOK", advertisedOK).b("categoricalOK", categoricalOK).b("missingOK", missingOK).b("affineOK", affineOK));
+}
 } // namespace
 
 int main(int argc, char* argv[])
@@ -304,6 +547,7 @@ int main(int argc, char* argv[])
         try
         {
             scale_case(rng, i);
+            float_case(rng, i);
         }
         catch (const std::exception& e)
         {
